@@ -305,96 +305,9 @@ fn unwind_target(u: &UnwindAction) -> String {
     }
 }
 
-pub fn dump_fn<'tcx>(cx: &Ctx<'tcx>, ldid: LocalDefId, out: &mut String) {
+fn write_bbs<'a, 'tcx>(f: &FnCx<'a, 'tcx>, body: &Body<'tcx>, out: &mut String) {
+    let cx = f.cx;
     let tcx = cx.tcx;
-    let did = ldid.to_def_id();
-    let body: &Body<'tcx> = tcx.optimized_mir(did);
-    let te = TypingEnv::post_analysis(tcx, did);
-    let dl = cx.loc(tcx.def_span(did));
-    let f = FnCx { cx, body, te, file: dl.file.clone() };
-    let kind = tcx.def_kind(did);
-    let vis = if matches!(kind, DefKind::Fn | DefKind::AssocFn) {
-        if tcx.visibility(did).is_public() { "pub" } else { "restricted" }
-    } else {
-        "closure"
-    };
-    // enclosing impl / trait
-    let mut impl_trait = "null".to_string();
-    let mut impl_trait_full = "null".to_string();
-    let mut self_ty = "null".to_string();
-    let mut self_adt = "null".to_string();
-    let mut in_trait = "null".to_string();
-    let mut parent_fn = "null".to_string();
-    let mut impl_derive = None;
-    if matches!(kind, DefKind::AssocFn) {
-        let p = tcx.parent(did);
-        match tcx.def_kind(p) {
-            DefKind::Impl { .. } => {
-                if let Some(tr) = tcx.impl_opt_trait_ref(p) {
-                    let trr = tr.instantiate_identity().skip_norm_wip();
-                    impl_trait = jstr(&cx.path(trr.def_id));
-                    impl_trait_full = jstr(&ty::print::with_no_trimmed_paths!(format!("{}", trr.print_only_trait_path())));
-                }
-                let st = tcx.type_of(p).instantiate_identity().skip_norm_wip();
-                self_ty = jstr(&cx.ty_str(st));
-                if let ty::Adt(a, _) = st.kind() {
-                    self_adt = jstr(&cx.path(a.did()));
-                }
-                impl_derive = cx.loc(tcx.def_span(p)).derive;
-            }
-            DefKind::Trait => in_trait = jstr(&cx.path(p)),
-            _ => {}
-        }
-    }
-    if matches!(kind, DefKind::Closure) {
-        let root = tcx.typeck_root_def_id(did);
-        parent_fn = jstr(&cx.path(root));
-    }
-    let derive = dl.derive.clone().or(impl_derive);
-
-    let _ = write!(
-        out,
-        "{{\"t\":\"fn\",\"id\":{},\"kind\":{},\"vis\":\"{}\",\"file\":{},\"line\":{},\"macros\":{},\"rfile\":{},\"rline\":{},\"derive\":{},\"impl_trait\":{},\"impl_trait_full\":{},\"self_ty\":{},\"self_adt\":{},\"in_trait\":{},\"parent_fn\":{},\"name\":{},\"argc\":{},",
-        jstr(&cx.path(did)),
-        jstr(&format!("{:?}", kind)),
-        vis,
-        jstr(&dl.file),
-        dl.line,
-        jstrs(&dl.macros),
-        jopt(&dl.rfile),
-        dl.rline,
-        jopt(&derive),
-        impl_trait,
-        impl_trait_full,
-        self_ty,
-        self_adt,
-        in_trait,
-        parent_fn,
-        jstr(&if matches!(kind, DefKind::Closure) { "{closure}".to_string() } else { tcx.item_name(did).to_string() }),
-        body.arg_count
-    );
-    // locals
-    let locals: Vec<String> = body.local_decls.iter().map(|d| jstr(&cx.ty_str(d.ty))).collect();
-    let _ = write!(out, "\"locals\":{},", jarr(&locals));
-    // user variable names
-    let mut names = Vec::new();
-    for vdi in body.var_debug_info.iter() {
-        if let mir::VarDebugInfoContents::Place(p) = &vdi.value {
-            names.push(format!("[{},{}]", jstr(vdi.name.as_str()), jstr(&f.place(p))));
-        }
-    }
-    let _ = write!(out, "\"names\":{},", jarr(&names));
-    // dominators
-    let doms = body.basic_blocks.dominators();
-    let idom: Vec<String> = body
-        .basic_blocks
-        .indices()
-        .map(|bb| match doms.immediate_dominator(bb) {
-            Some(d) => format!("{}", d.as_usize()),
-            None => "null".to_string(),
-        })
-        .collect();
-    let _ = write!(out, "\"idom\":{},\"bbs\":[", jarr(&idom));
     for (bbi, data) in body.basic_blocks.iter_enumerated() {
         if bbi.as_usize() > 0 {
             out.push(',');
@@ -494,5 +407,119 @@ pub fn dump_fn<'tcx>(cx: &Ctx<'tcx>, ldid: LocalDefId, out: &mut String) {
         };
         let _ = write!(out, "{{\"c\":{},\"st\":{},\"t\":{}}}", data.is_cleanup, jarr(&sts), tj);
     }
+}
+
+/// promoted constants of a body (`&(-B..=B)` and the like): their MIR still shows how the constant is built
+pub fn dump_promoted<'tcx>(cx: &Ctx<'tcx>, ldid: LocalDefId, out: &mut String) {
+    let tcx = cx.tcx;
+    let did = ldid.to_def_id();
+    let te = TypingEnv::post_analysis(tcx, did);
+    let dl = cx.loc(tcx.def_span(did));
+    for (pi, body) in tcx.promoted_mir(did).iter_enumerated() {
+        let f = FnCx { cx, body, te, file: dl.file.clone() };
+        let locals: Vec<String> = body.local_decls.iter().map(|d| jstr(&cx.ty_str(d.ty))).collect();
+        let _ = write!(
+            out,
+            "{{\"t\":\"promoted\",\"id\":{},\"parent\":{},\"locals\":{},\"bbs\":[",
+            jstr(&format!("{}::promoted[{}]", cx.path(did), pi.as_usize())),
+            jstr(&cx.path(did)),
+            jarr(&locals)
+        );
+        write_bbs(&f, body, out);
+        out.push_str("]}\n");
+    }
+}
+
+pub fn dump_fn<'tcx>(cx: &Ctx<'tcx>, ldid: LocalDefId, out: &mut String) {
+    let tcx = cx.tcx;
+    let did = ldid.to_def_id();
+    let body: &Body<'tcx> = tcx.optimized_mir(did);
+    let te = TypingEnv::post_analysis(tcx, did);
+    let dl = cx.loc(tcx.def_span(did));
+    let f = FnCx { cx, body, te, file: dl.file.clone() };
+    let kind = tcx.def_kind(did);
+    let vis = if matches!(kind, DefKind::Fn | DefKind::AssocFn) {
+        if tcx.visibility(did).is_public() { "pub" } else { "restricted" }
+    } else {
+        "closure"
+    };
+    // enclosing impl / trait
+    let mut impl_trait = "null".to_string();
+    let mut impl_trait_full = "null".to_string();
+    let mut self_ty = "null".to_string();
+    let mut self_adt = "null".to_string();
+    let mut in_trait = "null".to_string();
+    let mut parent_fn = "null".to_string();
+    let mut impl_derive = None;
+    if matches!(kind, DefKind::AssocFn) {
+        let p = tcx.parent(did);
+        match tcx.def_kind(p) {
+            DefKind::Impl { .. } => {
+                if let Some(tr) = tcx.impl_opt_trait_ref(p) {
+                    let trr = tr.instantiate_identity().skip_norm_wip();
+                    impl_trait = jstr(&cx.path(trr.def_id));
+                    impl_trait_full = jstr(&ty::print::with_no_trimmed_paths!(format!("{}", trr.print_only_trait_path())));
+                }
+                let st = tcx.type_of(p).instantiate_identity().skip_norm_wip();
+                self_ty = jstr(&cx.ty_str(st));
+                if let ty::Adt(a, _) = st.kind() {
+                    self_adt = jstr(&cx.path(a.did()));
+                }
+                impl_derive = cx.loc(tcx.def_span(p)).derive;
+            }
+            DefKind::Trait => in_trait = jstr(&cx.path(p)),
+            _ => {}
+        }
+    }
+    if matches!(kind, DefKind::Closure) {
+        let root = tcx.typeck_root_def_id(did);
+        parent_fn = jstr(&cx.path(root));
+    }
+    let derive = dl.derive.clone().or(impl_derive);
+
+    let _ = write!(
+        out,
+        "{{\"t\":\"fn\",\"id\":{},\"kind\":{},\"vis\":\"{}\",\"file\":{},\"line\":{},\"macros\":{},\"rfile\":{},\"rline\":{},\"derive\":{},\"impl_trait\":{},\"impl_trait_full\":{},\"self_ty\":{},\"self_adt\":{},\"in_trait\":{},\"parent_fn\":{},\"name\":{},\"argc\":{},",
+        jstr(&cx.path(did)),
+        jstr(&format!("{:?}", kind)),
+        vis,
+        jstr(&dl.file),
+        dl.line,
+        jstrs(&dl.macros),
+        jopt(&dl.rfile),
+        dl.rline,
+        jopt(&derive),
+        impl_trait,
+        impl_trait_full,
+        self_ty,
+        self_adt,
+        in_trait,
+        parent_fn,
+        jstr(&if matches!(kind, DefKind::Closure) { "{closure}".to_string() } else { tcx.item_name(did).to_string() }),
+        body.arg_count
+    );
+    // locals
+    let locals: Vec<String> = body.local_decls.iter().map(|d| jstr(&cx.ty_str(d.ty))).collect();
+    let _ = write!(out, "\"locals\":{},", jarr(&locals));
+    // user variable names
+    let mut names = Vec::new();
+    for vdi in body.var_debug_info.iter() {
+        if let mir::VarDebugInfoContents::Place(p) = &vdi.value {
+            names.push(format!("[{},{}]", jstr(vdi.name.as_str()), jstr(&f.place(p))));
+        }
+    }
+    let _ = write!(out, "\"names\":{},", jarr(&names));
+    // dominators
+    let doms = body.basic_blocks.dominators();
+    let idom: Vec<String> = body
+        .basic_blocks
+        .indices()
+        .map(|bb| match doms.immediate_dominator(bb) {
+            Some(d) => format!("{}", d.as_usize()),
+            None => "null".to_string(),
+        })
+        .collect();
+    let _ = write!(out, "\"idom\":{},\"bbs\":[", jarr(&idom));
+    write_bbs(&f, body, out);
     out.push_str("]}\n");
 }
